@@ -167,16 +167,16 @@ GF("client_core_data", ret="c", props=["C04"], fuel=3, post=len_chain("c", CORE_
             ("C04", "client-name-bytes", "c.fields()[7].1 == MV::Bytes(client_name_bytes(utf16le(if parameter is Some { parameter->Some_0.name@ } else { \"\"@ })))")])
 # MS-RDPBCGR 2.2.1.4.2 TS_UD_SC_CORE: version (4 bytes) is mandatory, clientRequestedProtocols and earlyCapabilityFlags are optional
 # (a conforming server may send the 4-byte or the 8-byte form): written from the document, not derived from the code
-GF("server_core_data", ret="c", props=["C05", "C03"],
+GF("server_core_data", ret="c", props=["C05", "C03", "C18"],
    ensures=shape_clauses(GCC, "server_core_data", res="c") + [
-       ("C03", "short-server-core-data-accepted", "c.fields().len() == 3 && c.fields()[0].1 is U32 && c.fields()[1].1 is Opt && c.fields()[2].1 is Opt"),
+       ("C03,C18", "short-server-core-data-accepted", "c.fields().len() == 3 && c.fields()[0].1 is U32 && c.fields()[1].1 is Opt && c.fields()[2].1 is Opt"),
        # MS-RDPBCGR 2.2.1.4.2: order, widths (3 x u32), endianness (LE) and optionality of every field
-       ("C03", "server_core_data-as-documented", "c.mv() == server_core_view()")],
+       ("C03,C18", "server_core_data-as-documented", "c.mv() == server_core_view()")],
    post="proof { assert(c.fields() =~= server_core_view()->Comp_0); }")
 GF("client_security_data", ret="c", props=["C04"], fuel=4, ensures=shape_clauses(GCC, "client_security_data", res="c") + [("C04", "size", "ser(c.mv()).len() == 8")])
 # MS-RDPBCGR 2.2.1.4.3 TS_UD_SC_SEC1: two mandatory u32 LE; the rest of the block is optional and left unread
-GF("server_security_data", ret="c", props=["C05", "C03"],
-   ensures=shape_clauses(GCC, "server_security_data", res="c") + [("C03", "server_security_data-as-documented", "c.mv() == server_security_view()")],
+GF("server_security_data", ret="c", props=["C05", "C03", "C18"],
+   ensures=shape_clauses(GCC, "server_security_data", res="c") + [("C03,C18", "server_security_data-as-documented", "c.mv() == server_security_view()")],
    post="proof { assert(c.fields() =~= server_security_view()->Comp_0); }")
 GF("channel_def", ret="c", props=["C04"], ensures=shape_clauses(GCC, "channel_def", res="c"))
 GF("client_network_data", ret="c", props=["C04"], fuel=4, ensures=shape_clauses(GCC, "client_network_data", res="c") + [("C04", "count", "ser(c.mv()) =~= le32(channel_def_array@.len() as u32) + ser(channel_def_array.mv())")])
@@ -186,8 +186,8 @@ GF("client_network_data", ret="c", props=["C04"], fuel=4, ensures=shape_clauses(
 # is refused.  Everything else is pinned from the document.
 NET_CHAN = "MV::U16(0, true)" if DOC_STRICT else "MV::Check(Box::new(MV::U16(1003, true)))"
 NET_CID = "server_network_data-as-documented" if DOC_STRICT else "server_network_data-as-documented-except-MCSChannelId (as-implemented: checked constant 1003; MS-RDPBCGR 2.2.1.4.4 leaves the id to the server)"
-GF("server_network_data", ret="c", props=["C05", "C03"],
-   closures={1: dict(params="count: &U16", ret="-> (r: MessageOption)", props="C03", cid="channelIdArray-size-is-2-x-channelCount",
+GF("server_network_data", ret="c", props=["C05", "C03", "C18"],
+   closures={1: dict(params="count: &U16", ret="-> (r: MessageOption)", props="C03,C18,C05", cid="channelIdArray-size-is-2-x-channelCount",
                      spec='ensures r.ov() == OV::Size("channelIdArray"@, (count.val() as usize * 2) as usize)'),
              2: dict(params="", ret="-> (r: U16)", spec="ensures r == U16::LE(0)")},
    ensures=shape_clauses(GCC, "server_network_data", res="c") + [("C03", NET_CID, "c.mv() == server_network_view(%s)" % NET_CHAN),
@@ -199,7 +199,7 @@ GF("server_network_data", ret="c", props=["C05", "C03"],
         assert(f[1].1 == g[1].1);
         assert(f[2].1->Arr_0 =~= Seq::<MV>::empty()); assert(f[2].1 == g[2].1);
         assert(f =~= g); }""" % NET_CHAN)
-GF("block_header", ret="c", props=["C04", "C05", "C03"], fuel=4, pre="proof { reveal_with_fuel(is_static, 3); }", requires=["(if length is Some { length->Some_0 } else { 0 }) <= 0xfffb"],
+GF("block_header", ret="c", props=["C04", "C05", "C03", "C18"], fuel=4, pre="proof { reveal_with_fuel(is_static, 3); }", requires=["(if length is Some { length->Some_0 } else { 0 }) <= 0xfffb"],
    ensures=shape_clauses(GCC, "block_header", res="c") + [("C04", "bytes", "ser(c.mv()) =~= ud_header((if data_type is Some { data_type->Some_0 as u16 } else { 0xC001u16 }), (if length is Some { length->Some_0 as int } else { 0 }))"), (None, "static", "is_static(c.mv())"),
                                                          # MS-RDPBCGR 2.2.1.3.1 TS_UD_HEADER, as READ in read_conference_create_response: two plain u16 LE (no checked constant: every block type is readable)
                                                          ("C03,C04", "block_header-as-documented", "c.mv() == ud_header_view((if data_type is Some { data_type->Some_0 as u16 } else { 0xC001u16 }), (if length is Some { length->Some_0 as int } else { 0 }))")],
@@ -211,7 +211,7 @@ GF("write_conference_create_request", props=["C04", "C18", "C03"], requires=["us
           (r"per::write_padding\(", 1, "proof { assert(Seq::new(1nat, |i: int| 0u8) =~= seq![0u8]); assert(result.written() =~= w1 + seq![0u8, 8u8, 0u8, 0x10u8, 0u8]); }"),
           (r"per::write_octet_stream\(&H221_CS_KEY", 1, "proof { assert(per::per_len(0u16) =~= seq![0u8]); assert(result.written() =~= w1 + seq![0u8, 8u8, 0u8, 0x10u8, 0u8, 1u8, 0xc0u8, 0u8, 0x44u8, 0x75u8, 0x63u8, 0x61u8]); }")],
    ensures=[("C04,C18", "t124-wrapper", "r is Ok ==> r->Ok_0@ =~= gcc_ccr(user_data@)")])
-GF("read_conference_create_response", props=["C05", "C03"],
+GF("read_conference_create_response", props=["C05", "C03", "C18"],
    body_sub=[(r"cc_response\.take\(length as u64\)", "take_reader(cc_response, length as u64)")],
    nloops=2,
    loops={1: """invariant blocks_ok(result.m()),
